@@ -242,8 +242,12 @@ Definition le_bytes (bs : list Z) : Z := fold_right (fun b acc => (b + 256 * acc
 (* SetRandom/SetBytesWide: the bytes of one read, little endian, reduced mod q *)
 Definition sample (q : Z) (bs : list Z) : Z := (le_bytes bs mod q)%Z.
 
-Definition rows_of (M : list (list Z)) (labels : list N) (h : N) : list (list Z) :=
+(* the row map of a labelled matrix (an MSP as the library represents it: matrix + rows-to-holders
+   labelling): the rows labelled h, ascending row index *)
+Definition lrows {F : Type} (M : list (list F)) (labels : list N) (h : N) : list (list F) :=
   map snd (filter (fun p => N.eqb (fst p) h) (combine labels M)).
+
+Definition rows_of (M : list (list Z)) (labels : list N) (h : N) : list (list Z) := lrows M labels h.
 
 Definition tapes_of (q : Z) (parties : list (N * list (list Z))) : list (N * list Z) :=
   map (fun p => (fst p, map (sample q) (snd p))) parties.
